@@ -179,6 +179,21 @@ func checkC06(r *core.Run) {
 		res := sp.Analyze(fn)
 		ownTag := "write:" + own[hn]
 		for _, ex := range res.Exits {
+			// the skip signal ("nothing to do, report success") is never the answer to a failed fence statement: a
+			// duplicate key on the suspension insert only says that some record exists now, not which
+			if len(ex.Results) == 1 {
+				if v, ok := core.ObjOf(info, ex.Results[0]).(*types.Var); ok && v.Pkg() != nil && v.Parent() == v.Pkg().Scope() && strings.Contains(v.Name(), "Skip") {
+					failed := ""
+					for _, t := range ex.St.MayTags() {
+						if strings.HasPrefix(t, "fail:write:") || t == "fail:query" {
+							failed = t
+						}
+					}
+					r.Sites++
+					r.Check(failed == "", "C06.transition", core.ShortKey(fn.Obj)+" "+exitRole(ex, func(t string) bool { return strings.Contains(t, "write:") || strings.Contains(t, "query") })+" returns the skip signal only when every fence statement succeeded", w.Pos(ex.Pos),
+						"no failed fence statement on this path", "the skip signal (reported to the coordinator as success) is returned on a path where a fence statement failed ("+failed+"): the delivery is acknowledged although the record it needed was not written — e.g. a rollback racing a prepare is acknowledged while the tried record stands and cancel never runs")
+				}
+			}
 			if ex.Class == flow.ExitErr {
 				continue
 			}
